@@ -328,6 +328,9 @@ func (p *Prog) targetsFor(prop string) []target {
 		}
 		i := strings.Index(key, "::")
 		t := target{key[:i], key[i+2:]}
+		if p.cs.Specs[key].Inline {
+			continue // verified inside each caller, with the caller's knowledge of its arguments
+		}
 		for _, pr := range p.funcProps(t.pkg, t.ref) {
 			if pr == prop {
 				set[t] = true
